@@ -13,7 +13,7 @@ from . import gen
 def plan(tier, seed, *, quick_cells=12, thorough_cells=16, thorough_shapes=((4, 5), (5, 4)),
          thorough_multisets=((5, 5), (6, 4)), quick_multisets=(),
          hyp_quick=(12, 250), hyp_thorough=(16, 2500), profiles=('small', 'medium'),
-         block=4096, wide=False, mid=True, fixed=()):
+         block=4096, wide=False, mid=True, tall=False, fixed=()):
     tasks = []
     if tier == 'quick':
         tasks += gen.exhaustive_blocks(quick_cells, block=block)
@@ -42,6 +42,11 @@ def plan(tier, seed, *, quick_cells=12, thorough_cells=16, thorough_shapes=((4, 
         for k in range(n_mid):
             tasks.append({'kind': 'hyp', 'profile': 'mid', 'examples': ex_mid, 'shard': 200 + k,
                           'seed': seed * 1000 + 200 + k})
+    if tall:
+        n_tall, ex_tall = tall if isinstance(tall, tuple) else ((2, 8) if tier == 'quick' else (6, 60))
+        for k in range(n_tall):
+            tasks.append({'kind': 'hyp', 'profile': 'tall', 'examples': ex_tall, 'shard': 300 + k,
+                          'seed': seed * 1000 + 300 + k})
     for f in fixed:
         tasks.append({'kind': 'fixed', 'name': f})
     return gen.balance(tasks, weight=_weight)
@@ -51,7 +56,7 @@ def _weight(t):
     if t['kind'] in ('exhaustive', 'multiset'):
         return (t['stop'] - t['start']) * (1 + t['n'] * t['m'] / 8)
     if t['kind'] == 'hyp':
-        return t['examples'] * (400 if t.get('profile') == 'mid' else 12)
+        return t['examples'] * (400 if t.get('profile') in ('mid', 'tall') else 12)
     return 10 ** 9  # fixed tasks first
 
 
@@ -84,15 +89,18 @@ def run(task, ctx, check_one, strategy_of=None, fixed_cases=None):
         ctx.guarded(loop)
         ctx.count('multiset_tables', task['stop'] - task['start'])
     elif kind == 'hyp':
-        if strategy_of is not None and task['profile'] not in ('wide', 'mid'):
+        if strategy_of is not None and task['profile'] not in ('wide', 'mid', 'tall'):
             strat = strategy_of(task)
         elif task['profile'] == 'wide':
             strat = gen.wide_tables()
         elif task['profile'] == 'mid':
             strat = gen.mid_tables()
+        elif task['profile'] == 'tall':
+            strat = gen.tall_tables()
         else:
             strat = gen.tables(task['profile'])
-        ctx.hypothesis(lambda case: check_one(case, ctx, True), strat,
+        deep = task['profile'] != 'tall'   # tall tables: one plain pass (the history devices cost minutes at this size)
+        ctx.hypothesis(lambda case: check_one(case, ctx, deep), strat,
                        task['examples'], task['seed'], shrink=task.get('shrink', True))
     elif kind == 'fixed':
         def loop():
